@@ -26,6 +26,8 @@ pub enum CompactionPriority {
 pub(crate) struct Strategy {
 	// Number of L0 files that trigger compaction
 	level0_file_num_trigger: usize,
+	// Number of L0 files at which writers are stalled
+	l0_stall_threshold: usize,
 	// Base size for level 1+ in bytes
 	max_bytes_for_level: u64,
 	// Size multiplier for each level
@@ -38,6 +40,7 @@ impl Default for Strategy {
 		let opts = Options::default();
 		Self {
 			level0_file_num_trigger: opts.level0_max_files,
+			l0_stall_threshold: opts.l0_stall_threshold,
 			max_bytes_for_level: opts.max_bytes_for_level,
 			level_multiplier: opts.level_multiplier,
 			compaction_priority: CompactionPriority::default(),
@@ -50,6 +53,7 @@ impl Strategy {
 	pub(crate) fn from_options(opts: Arc<Options>) -> Self {
 		Self {
 			level0_file_num_trigger: opts.level0_max_files,
+			l0_stall_threshold: opts.l0_stall_threshold,
 			max_bytes_for_level: opts.max_bytes_for_level,
 			level_multiplier: opts.level_multiplier,
 			compaction_priority: CompactionPriority::default(),
@@ -64,6 +68,7 @@ impl Strategy {
 	) -> Self {
 		Self {
 			level0_file_num_trigger: opts.level0_max_files,
+			l0_stall_threshold: opts.l0_stall_threshold,
 			max_bytes_for_level: opts.max_bytes_for_level,
 			level_multiplier: opts.level_multiplier,
 			compaction_priority: priority,
@@ -407,6 +412,15 @@ impl Strategy {
 	}
 
 	pub(crate) fn find_compaction_level(&self, manifest: &LevelManifest) -> Option<u8> {
+		// Once L0 has reached the write-stall limit, writers wait for an L0 compaction
+		// and for nothing else. There is one round per wake-up of the compaction task and
+		// stalled writers cause no further wake-ups, so this round must not go to another
+		// level - whose score can be higher, and stays so for a bottom level over its
+		// target, which same-level compaction does not shrink - or they wait for ever.
+		if manifest.levels.get_levels()[0].tables.len() >= self.l0_stall_threshold.max(1) {
+			return Some(0);
+		}
+
 		let scores = self.compute_compaction_scores(manifest);
 
 		// No levels need compaction
